@@ -122,7 +122,7 @@ def main():
             'engine': 'vk',
             'level_claimed': {'category': 'other', 'text': text, 'design_ref': ref},
             'level_note': note,
-            'technique': tech,
+            'technique': tech + '; a sample of the z3 queries of every job (all queries for C08 and C12) is re-decided by cvc5 (SMT-LIB2 export, disagreement = harness error)',
         })
     na = []
     for i in range(1, 19):
@@ -142,7 +142,7 @@ def main():
         },
         'engines': [
             {'name': 'vk', 'path': 'vk/engine.py', 'serves_properties': ids,
-             'kind_free_text': 'own symbolic executor for Python (z3-backed proxy values, depth-first re-execution with incremental solver scopes, concrete replay); system harness vk/sysrun.py, reference model vk/refmodel.py'},
+             'kind_free_text': 'own symbolic executor for Python (z3-backed proxy values, depth-first re-execution with incremental solver scopes, concrete replay); system harness vk/sysrun.py, reference model vk/refmodel.py; second solver vk/xcheck/second_solver.py (cvc5 binary on exported queries)'},
         ],
         'checks': checks,
         'not_applicable': na,
